@@ -145,7 +145,9 @@ def tree_digest(root):
 def base_env(sandbox_home, hashseed):
     return {
         "PYTHONHASHSEED": str(hashseed),
-        "PYTHONPATH": VERIF,
+        # FORDSIM_REPO (optional, for background sweeps only): import ford from a snapshot instead of
+        # /repo's working tree; registered checks never set it
+        "PYTHONPATH": VERIF + (os.pathsep + os.environ["FORDSIM_REPO"] if os.environ.get("FORDSIM_REPO") else ""),
         "PYTHONDONTWRITEBYTECODE": "1",
         "FORD_DEBUGGING": "1",
         "TZ": "UTC",
